@@ -96,6 +96,8 @@ func syncTrace(en *Env, cfg h.Cfg, ops int) {
 			if e.Close() != "ok" || e.Open(cfg) != "ok" {
 				return
 			}
+		case x < 97:
+			e.Merge() // rotates away from the active file (which must be flushed first) and writes next to the log
 		default:
 			e.Get(k)
 		}
